@@ -222,7 +222,11 @@ def run(ck, prog, ctx):
         for n, (b, bi, t) in enumerate(sites):
             recv = pv.of_operand(b, t.args[0])
             pat = pv.of_operand(b, t.args[1])
-            qfield = lambda at: "query" in field_names(at, "OmimDiseaseFilter")
+            # the query is the filter's string field (whatever it is called)
+            fadt = next((a for pth, a in prog.adts.items() if pth.endswith("OmimDiseaseFilter")), None)
+            sflds = [f["name"] for v in (fadt or {}).get("variants", []) for f in v.get("fields", []) if re.search(r"\bstr\b", f.get("ty", ""))]
+            QF = sflds[0] if len(sflds) == 1 else "query"
+            qfield = lambda at: QF in field_names(at, "OmimDiseaseFilter")
             ok = name_side(recv, r"Disease") and qfield(pat) and not qfield(recv) and not name_side(pat, r"Disease")
             ck.ob("ROLE", "filter_next/contains/%d" % n, ok, "OmimDiseaseFilter::next calls %s" % ("item.name().contains(self.query)" if ok else "str::contains with receiver/pattern that are not (disease name, query field)"), where=b.where(t.line))
         # the query field is the caller's substring
@@ -236,8 +240,10 @@ def run(ck, prog, ctx):
             qa = None
             for pos, s in new.stmts():
                 if s.k == "assign" and s.rv["k"] == "agg" and s.rv.get("adt", "").endswith("OmimDiseaseFilter"):
-                    i = s.rv["fields"].index("query")
-                    qa = pv.of_operand(new, s.rv["ops"][i])
+                    fadt = next((a for pth, a in prog.adts.items() if pth.endswith("OmimDiseaseFilter")), None)
+                    sflds = [f["name"] for v in (fadt or {}).get("variants", []) for f in v.get("fields", []) if re.search(r"\bstr\b", f.get("ty", ""))]
+                    if len(sflds) == 1 and sflds[0] in s.rv["fields"]:
+                        qa = pv.of_operand(new, s.rv["ops"][s.rv["fields"].index(sflds[0])])
             if qa is not None:
                 ck.ob("ROLE", "filter_new/field", 2 in params_of(qa, new.id), "OmimDiseaseFilter::new stores its `query` parameter in the query field", where=new.where())
 
